@@ -352,6 +352,47 @@ theorem summary_consistent (ncomp isle xmin xmax ymin ymax : Nat) (pix : List Pi
         obtain ⟨p, hp, e⟩ := List.mem_map.1 m1
         have := hall p hp; omega
 
+/-- **peak_pixel_consistent**: the pixel the island row is positioned at is one of the detected
+    pixels, it holds exactly the island's `peak_flux`, and that value is the largest detected value
+    for an island with a non-negative pixel and the smallest (most negative) one for an all-negative
+    island — never the `nanargmax` of a negative island. -/
+theorem peak_pixel_consistent (ncomp xmin xmax ymin ymax : Nat) (pix : List Pix) (hne : pix ≠ []) :
+    ∃ p, peakPix pix = some p ∧ p ∈ pix ∧
+      (islandSummary ncomp xmin xmax ymin ymax pix).peak = some p.v ∧
+      ((∃ q ∈ pix, 0 ≤ q.v) → ∀ q ∈ pix, q.v ≤ p.v) ∧
+      ((∀ q ∈ pix, q.v < 0) → ∀ q ∈ pix, p.v ≤ q.v) := by
+  have hv : pix.map (·.v) ≠ [] := by simpa using hne
+  obtain ⟨m, hm⟩ := maxOf_isSome _ hv
+  obtain ⟨n, hn⟩ := minOf_isSome _ hv
+  obtain ⟨m1, m2⟩ := maxOf_spec _ m hm
+  obtain ⟨n1, n2⟩ := minOf_spec _ n hn
+  -- the peak value and a pixel that holds it
+  have key : ∀ pk, peakOf (pix.map (·.v)) = some pk → (∃ q ∈ pix, q.v = pk) →
+      ∃ p, peakPix pix = some p ∧ p ∈ pix ∧ p.v = pk := by
+    intro pk hpk hex
+    have hs : (pix.find? (fun p => decide (p.v = pk))).isSome = true := by
+      rw [List.find?_isSome]
+      obtain ⟨q, hq, e⟩ := hex
+      exact ⟨q, hq, by simpa using e⟩
+    obtain ⟨p, hp⟩ := Option.isSome_iff_exists.1 hs
+    refine ⟨p, by simp only [peakPix, hpk]; exact hp, List.mem_of_find?_eq_some hp, ?_⟩
+    simpa using List.find?_some hp
+  by_cases hneg : m < 0
+  · have hpk : peakOf (pix.map (·.v)) = some n := by simp [peakOf, hm, hneg, hn]
+    obtain ⟨q0, hq0, e0⟩ := List.mem_map.1 n1
+    obtain ⟨p, h1, h2, h3⟩ := key n hpk ⟨q0, hq0, e0⟩
+    refine ⟨p, h1, h2, by simp [islandSummary, hpk, h3], ?_, ?_⟩
+    · rintro ⟨q, hq, h0⟩
+      have := m2 q.v (List.mem_map.2 ⟨q, hq, rfl⟩); omega
+    · intro _ q hq; rw [h3]; exact n2 q.v (List.mem_map.2 ⟨q, hq, rfl⟩)
+  · have hpk : peakOf (pix.map (·.v)) = some m := by simp [peakOf, hm, hneg]
+    obtain ⟨q0, hq0, e0⟩ := List.mem_map.1 m1
+    obtain ⟨p, h1, h2, h3⟩ := key m hpk ⟨q0, hq0, e0⟩
+    refine ⟨p, h1, h2, by simp [islandSummary, hpk, h3], ?_, ?_⟩
+    · intro _ q hq; rw [h3]; exact m2 q.v (List.mem_map.2 ⟨q, hq, rfl⟩)
+    · intro hall
+      have := hall q0 hq0; omega
+
 /-! ### 6. Determinism -/
 
 /-- **deterministic**: the model's catalogue is a function of its input; the uuid stream influences
